@@ -1,4 +1,6 @@
 import VlsModel.Lemmas.Velocity
+import VlsModel.Model.PersistConv
+import VlsModel.Gen.PersistConv
 /-
 C12 — Velocity limits bound spending in every time window, across restarts.
 
@@ -300,6 +302,155 @@ theorem C12_restart (s : Spec) (hlim : s.triple.1 < U64.MAX)
         simp [NodeVC.restart, VC.restart, VC.updateSpec, hmatch]
       rw [hre] at h
       exact ih { n with mem := n.disk } log T gd gd hs' n' log' h
+
+/-! ### Restarts with a changed policy spec
+
+`C12_restart` fixes the policy spec.  `Node::new_full` applies `update_spec(policy spec)` to the restored
+control: a control whose limit, bucket interval or bucket count differs from the configured spec is replaced by
+a fresh one (in memory; the store keeps the old control until the next approval is persisted).  The statement
+for arbitrary specs at every restart: whatever the sequence of configurations, the control in memory always
+bounds the approvals *it accounts for* — all approvals since the control now in memory was created — in
+every window of its own tracked interval minus one bucket, with its own limit.  A restart under a matching spec
+keeps the whole history (`runNodeAny` hands the persisted history on), so nothing counted is reset; a control
+assembled from the geometry of one spec and the buckets of another (what `load_from_state` would build from a
+stale state) is *not* of this form: see the example below. -/
+
+/-- the invariant of `good_step` stated with the control's own geometry -/
+structure GoodOwn (T : Nat) (v : VC) (log : Log) : Prop where
+  good : Good v.limit v.bi v.buckets.length T v log
+  hn : 0 < v.buckets.length
+  hlim : v.limit < U64.MAX
+
+theorem GoodOwn.mono {T T' : Nat} {v : VC} {log : Log} (g : GoodOwn T v log) (h : T ≤ T') : GoodOwn T' v log :=
+  ⟨g.good.mono h, g.hn, g.hlim⟩
+
+theorem goodOwn_step {T : Nat} {v : VC} {log : Log} (g : GoodOwn T v log) (t a : Nat) (ht : T ≤ t)
+    (v' : VC) (ok : Bool) (hins : v.insert t a = some (v', ok)) :
+    GoodOwn t v' (if ok then (t, a) :: log else log) := by
+  have gs := good_step g.hn g.hlim g.good t a ht v' ok hins
+  have h1 := gs.hbi
+  have h2 := gs.hlimit
+  have h3 := gs.hlen
+  refine ⟨?_, by have := g.hn; omega, by have := g.hlim; omega⟩
+  rw [h1, h2, h3]
+  exact gs
+
+theorem goodOwn_ofSpec (s : Spec) (hlim : s.triple.1 < U64.MAX) (T : Nat) : GoodOwn T (VC.ofSpec s) [] := by
+  have hpos : 0 < s.triple.2.1 ∧ 0 < s.triple.2.2 := by
+    obtain ⟨h1, h2, h3, h4, h5, h6⟩ := C12_gen_table_ok
+    cases s with
+    | mk l t => cases t <;> simp [Spec.triple] <;> omega
+  have g0 := (good_init s.triple.1 s.triple.2.1 s.triple.2.2 hpos.1).mono (Nat.zero_le T)
+  have e1 : (VC.ofSpec s).limit = s.triple.1 := by simp [VC.ofSpec, VC.newWithIntervals]
+  have e2 : (VC.ofSpec s).bi = s.triple.2.1 := by simp [VC.ofSpec, VC.newWithIntervals]
+  have e3 : (VC.ofSpec s).buckets.length = s.triple.2.2 := by simp [VC.ofSpec, VC.newWithIntervals]
+  refine ⟨?_, by omega, by omega⟩
+  rw [e1, e2, e3]
+  simpa [VC.ofSpec] using g0
+
+/-- node-level run in which every restart may come with a different policy spec.  Two histories are carried:
+    the approvals the control in memory accounts for and those the persisted control accounts for. -/
+def runNodeAny : NodeVC → Log → Log → List NodeOp → Option (NodeVC × Log × Log)
+  | n, ml, dl, [] => some (n, ml, dl)
+  | n, ml, dl, .insert t a :: rest =>
+    match n.insert t a with
+    | none => none
+    | some (n', true) => runNodeAny n' ((t, a) :: ml) ((t, a) :: ml) rest     -- approved: persisted
+    | some (n', false) => runNodeAny n' ml dl rest                            -- refused: memory only
+  | n, ml, dl, .restart s :: rest =>
+    -- `update_spec`: the persisted control is kept iff it matches the spec
+    runNodeAny (n.restart s) (if n.disk.specMatches s then dl else []) dl rest
+
+/-- insert timestamps are non-decreasing; every configured spec is a real limit (not `Unlimited`) -/
+def SortedAny (t0 : Nat) : List NodeOp → Prop
+  | [] => True
+  | .insert t _ :: rest => t0 ≤ t ∧ SortedAny t rest
+  | .restart s :: rest => s.triple.1 < U64.MAX ∧ SortedAny t0 rest
+
+/-- **C12 (restart, any sequence of configurations)** -/
+theorem C12_restart_any_spec (ops : List NodeOp) : ∀ (n : NodeVC) (ml dl : Log) (T : Nat),
+    GoodOwn T n.mem ml → GoodOwn T n.disk dl → SortedAny T ops →
+    ∀ n' ml' dl', runNodeAny n ml dl ops = some (n', ml', dl') →
+    ∀ lo, windowSum ml' lo (lo + (n'.mem.buckets.length - 1) * n'.mem.bi) ≤ n'.mem.limit := by
+  induction ops with
+  | nil =>
+    intro n ml dl T gm _ _ n' ml' dl' h lo
+    simp only [runNodeAny, Option.some.injEq, Prod.mk.injEq] at h
+    obtain ⟨h1, h2, _⟩ := h
+    subst h1; subst h2
+    exact gm.good.hwin lo
+  | cons op rest ih =>
+    intro n ml dl T gm gd hs n' ml' dl' h
+    cases op with
+    | insert t a =>
+      obtain ⟨ht, hs'⟩ := hs
+      simp only [runNodeAny] at h
+      cases hm : n.mem.insert t a with
+      | none => simp [NodeVC.insert, hm] at h
+      | some r =>
+        obtain ⟨v1, ok1⟩ := r
+        have gstep := goodOwn_step gm t a ht v1 ok1 hm
+        cases ok1 with
+        | true =>
+          simp only [NodeVC.insert, hm] at h
+          exact ih _ _ _ t gstep gstep hs' n' ml' dl' h
+        | false =>
+          simp only [NodeVC.insert, hm] at h
+          have gstep' : GoodOwn t v1 ml := by simpa using gstep
+          exact ih { mem := v1, disk := n.disk } ml dl t gstep' (gd.mono ht) hs' n' ml' dl' h
+    | restart s =>
+      obtain ⟨hlim, hs'⟩ := hs
+      simp only [runNodeAny] at h
+      cases hmatch : n.disk.specMatches s with
+      | true =>
+        have hre : n.restart s = { n with mem := n.disk } := by
+          simp [NodeVC.restart, VC.restart, VC.updateSpec, hmatch]
+        rw [hre, hmatch] at h
+        exact ih { n with mem := n.disk } dl dl T gd gd hs' n' ml' dl' (by simpa using h)
+      | false =>
+        have hre : n.restart s = { n with mem := VC.ofSpec s } := by
+          simp [NodeVC.restart, VC.restart, VC.updateSpec, hmatch]
+        rw [hre, hmatch] at h
+        exact ih { n with mem := VC.ofSpec s } [] dl T (goodOwn_ofSpec s hlim T) gd hs' n' ml' dl' (by simpa using h)
+
+/-- from a fresh node: the bound for the control in memory after any history of approvals and restarts under
+    changing configurations -/
+theorem C12_restart_any_spec_init (s : Spec) (hlim : s.triple.1 < U64.MAX) (ops : List NodeOp)
+    (hs : SortedAny 0 ops) (n' : NodeVC) (ml' dl' : Log)
+    (h : runNodeAny (NodeVC.ofSpec s) [] [] ops = some (n', ml', dl')) (lo : Nat) :
+    windowSum ml' lo (lo + (n'.mem.buckets.length - 1) * n'.mem.bi) ≤ n'.mem.limit :=
+  C12_restart_any_spec ops (NodeVC.ofSpec s) [] [] 0 (goodOwn_ofSpec s hlim 0) (goodOwn_ofSpec s hlim 0) hs n' ml' dl' h lo
+
+/-- non-vacuity: hourly 1000 → 900 approved; restart under a *daily* 1000 spec installs a fresh daily control
+    (24 one-hour buckets); 900 more are approved; 13 hours later 200 more are refused (the daily control still
+    counts the 900), and a restart back under the same daily spec keeps that history -/
+example : (runNodeAny (NodeVC.ofSpec ⟨1000, .hourly⟩) [] []
+      [.insert 1000000 900, .restart ⟨1000, .daily⟩, .insert 1000100 900, .restart ⟨1000, .daily⟩,
+       .insert 1046900 200]).map (fun r => (r.2.1, r.1.mem.buckets.length, r.1.mem.bi))
+      = some ([(1000100, 900)], 24, 3600) := by decide
+
+/-- … whereas the control that `load_from_state(daily spec, persisted hourly state)` would build — daily limit
+    and bucket interval, but the twelve persisted buckets — forgets after twelve hours: 900 + 900 approved
+    within 13 hours under a 1000/day limit.  `update_spec` never produces such a control (`specMatches` compares
+    the bucket count), which is why `C12_restart_any_spec` holds. -/
+example :
+    let stale := VC.loadFromState ⟨1000, .daily⟩ (VC.ofSpec ⟨1000, .hourly⟩).getState
+    stale.buckets.length = 12 ∧ stale.bi = 3600 ∧ stale.specMatches ⟨1000, .daily⟩ = false ∧
+    (run stale [] [(1000000, 900), (1046900, 900)]).map (·.2) = some [(1046900, 900), (1000000, 900)] := by decide
+
+/-! ### Tie to the source: the controls reach the store and come back (translate/x_persistconv.py) -/
+
+open VlsModel.PersistConv VlsModel.Gen.PersistConv in
+/-- **C12_gen_census_velocity** (generated obligation): in the current sources (a) both velocity controls are
+    fields of the persisted node entry and are read back into the same fields by the restore path, (b) all four
+    fields of a control (start second, bucket interval, buckets, limit) are copied into the persisted control
+    and back — the model's `NodeVC.restart` restarts from the *whole* control —, and (c) `Node::new_full` passes
+    both restored controls through `update_spec(policy spec)` (= `VC.restart`, tied by `C12_fn_update_spec`). -/
+theorem C12_gen_census_velocity :
+    (∀ f ∈ [NodeStateF.velocity_control, .fee_velocity_control],
+        (Conv.mk nodeSave nodeLoad).roundTrips f = true ∧ velocityUpdateSpec.contains f = true) ∧
+    VelocityF.all.filter (fun f => (Conv.mk velocitySave velocityLoad).roundTrips f) = VelocityF.all ∧
+    VelocityF.all = [.start_sec, .bucket_interval, .buckets, .limit] := by decide
 
 /-! ### Non-vacuity: the hypotheses are met by concrete non-trivial histories -/
 
